@@ -930,7 +930,7 @@ fn gen_content(
             _ => edge_initial = true,
         }
     }
-    if rng.chance(1, 80) {
+    if rng.chance(1, 150) {
         overspend = true;
     }
 
@@ -1968,7 +1968,7 @@ fn main() {
     let start = Instant::now();
     let quick = cli.tier.is_quick();
     let shards = if quick { 32 } else { 128 };
-    let worlds_per_shard = cli.scaled(if quick { 100 } else { 400 });
+    let worlds_per_shard = cli.scaled(if quick { 100 } else { 250 });
     let mut rep = run_sharded("C05", cli.threads, shards, |i, r| {
         let mut rng = Rng::new(cli.seed.wrapping_mul(1_000_003).wrapping_add(i as u64).wrapping_mul(7919));
         for w in 0..worlds_per_shard {
